@@ -91,6 +91,41 @@ M('c16-seek-off-by-one', 'C16', 'R3', ST,
   "    fh.seek(start)\n", "    fh.seek(start + 1)\n")
 M('c16-suffix-not-clamped', 'C16', 'R3', ST,
   "        start = max(start, -size)\n", "")
+# seek() "already returns the absolute position": relies on BytesIO clamping at 0; a real file raises (s4-c16-3)
+M('c16-suffix-start-from-seek-result', 'C16', 'R3', ST,
+  """        start = max(start, -size)
+        fh.seek(start, os.SEEK_END)
+        # NOTE(vytas): Wrap in order to prevent sendfile from being used, as
+        #   its implementation was found to be buggy in many popular WSGI
+        #   servers for open files with a non-zero offset.
+        return _BoundedFile(fh, -start), -start, (size + start, size - 1, size)
+""", """        start = fh.seek(start, os.SEEK_END)
+        length = size - start
+        return _BoundedFile(fh, length), length, (start, size - 1, size)
+""")
+# same, reading the position back with tell(): the result is opaque to the evaluator, the unclamped seek is what is reported
+M('c16-suffix-start-from-tell', 'C16', 'R3', ST,
+  """        start = max(start, -size)
+        fh.seek(start, os.SEEK_END)
+        # NOTE(vytas): Wrap in order to prevent sendfile from being used, as
+        #   its implementation was found to be buggy in many popular WSGI
+        #   servers for open files with a non-zero offset.
+        return _BoundedFile(fh, -start), -start, (size + start, size - 1, size)
+""", """        fh.seek(start, 2)
+        start = fh.tell()
+        length = size - start
+        return _BoundedFile(fh, length), length, (start, size - 1, size)
+""")
+# the clamp is applied after the seek: the numbers reported are right, the seek itself may raise
+M('c16-suffix-clamped-after-seek', 'C16', 'R3', ST,
+  """        start = max(start, -size)
+        fh.seek(start, os.SEEK_END)
+""", """        fh.seek(start, os.SEEK_END)
+        start = max(start, -size)
+""")
+# clamped from the wrong side
+M('c16-suffix-clamped-with-min', 'C16', 'R3', ST,
+  "        start = max(start, -size)\n", "        start = min(start, -size)\n")
 M('c16-suffix-range-reports-wrong-first', 'C16', 'R3', ST,
   "return _BoundedFile(fh, -start), -start, (size + start, size - 1, size)",
   "return _BoundedFile(fh, -start), -start, (size + start + 1, size - 1, size)")
